@@ -215,7 +215,22 @@ func orphanScenario(w *World, p *Plan, rec *Record) {
 			w.probe("c13-child-before-parent")
 			if err == nil || !containsStr(err.Error(), accountant.ErrParentDoesNotExists.Error()) {
 				// a duplicate of something already parked is reported differently by the flash memory / buffer: only first arrivals are judged
-				if !w.seenDelivery[cp.Hash] {
+				raced := false
+				if err == nil {
+					// the retry ticker may have admitted the parked parent while this delivery was in flight:
+					// then the vertex was rightly admitted with its parents present
+					if s2 := w.snapshot(target); s2 != nil && s2.get(cp.Hash) != nil {
+						raced = true
+						for _, ph := range declParents(&cp) {
+							if s2.get(ph) == nil {
+								raced = false
+							}
+						}
+					}
+				}
+				if raced {
+					w.probe("c13-parent-admitted-by-retry-during-delivery")
+				} else if !w.seenDelivery[cp.Hash] {
 					w.violate("C13", "report", "missing-parent-not-reported", target.Idx, "vertex %s: %v", hx(cp.Hash), err)
 				}
 			} else if s := w.snapshot(target); s != nil {
